@@ -6,7 +6,7 @@ cd /repo || exit 2
 if ! git diff --quiet; then echo "/repo not clean"; exit 2; fi
 git apply "$PATCH" || { echo "patch does not apply"; exit 2; }
 cd /verif
-timeout 1500 ./check "$P" --tier "$TIER" > /tmp/seedrun.$$.out 2> /tmp/seedrun.$$.err
+VERIF_SCRATCH_EVIDENCE=1 timeout 1500 ./check "$P" --tier "$TIER" > /tmp/seedrun.$$.out 2> /tmp/seedrun.$$.err
 RC=$?
 git -C /repo checkout -- . ; git -C /repo clean -fdq
 echo "rc=$RC"; grep -E "^(VIOLATION|OK|KNOWN)" /tmp/seedrun.$$.out | cut -c1-200; grep -E "^\[$P\]" /tmp/seedrun.$$.err | cut -c1-260 | head -4
